@@ -24,7 +24,7 @@
 (*                 [k |-> "i", v |-> immediate (integer)]                   *)
 (*                 [k |-> "cl"]   [k |-> "n"] (absent),                     *)
 (*               cc  |-> condition code 0..15]                              *)
-(*   SpecStep(s, f, len) = [r, fl, mem,                                     *)
+(*   SpecStep(s, f, len, wit) = [r, fl, mem,                                *)
 (*               rip   |-> next rip - address of the instruction,           *)
 (*               undef |-> flags the architecture leaves undefined,         *)
 (*               ur    |-> registers left undefined (BSF/BSR of zero),      *)
@@ -72,30 +72,47 @@ WrReg(r, n, h, sz, v) ==
                [] sz = 8 /\ h = 1 -> Slice(old, 0, 8) \o v \o Slice(old, 16, 48)
   IN [r EXCEPT ![m + 1] = ToLimbs(new)]
 
-EAof(r, m) ==
-  LET base == IF m.rip = 1 THEN NextBV ELSE IF m.b < 0 THEN Zero(64) ELSE RegBV(r, m.b)
-      idx  == IF m.x < 0 THEN Zero(64) ELSE Shl(RegBV(r, m.x), Log2(m.sc))
-      sum  == Add(Add(base, idx), IntBV(m.d, 64))
-  IN IF m.a32 = 1 THEN Zext(Trunc(sum, 32), 64) ELSE sum
-(* offset of an n-byte access inside the scratch bytes, -1 if not wholly inside *)
-OffOf(ea, n) == LET o == Sub(ea, DataBV) IN IF Ult(o, NBits(MEMN - n + 1, 64)) THEN BNat(Trunc(o, 8)) ELSE -1
+(* 64-bit address arithmetic on the 4-limb wire format with TLC's integers (the bit-level Add of BitVec is two
+   orders of magnitude slower under TLC and addresses are computed several times per vector); X86MC.cfg checks
+   these operators against BitVec on boundary and random values *)
+L4Add(a, b) ==
+  LET s1 == a[1] + b[1]                  s2 == a[2] + b[2] + (s1 \div 65536)
+      s3 == a[3] + b[3] + (s2 \div 65536) s4 == a[4] + b[4] + (s3 \div 65536)
+  IN <<s1 % 65536, s2 % 65536, s3 % 65536, s4 % 65536>>
+L4Neg(a) == L4Add(<<65535 - a[1], 65535 - a[2], 65535 - a[3], 65535 - a[4]>>, <<1, 0, 0, 0>>)
+L4Sub(a, b) == L4Add(a, L4Neg(b))
+L4Scale(a, k) ==                         \* k in {1, 2, 4, 8}
+  LET p1 == a[1] * k                     p2 == a[2] * k + (p1 \div 65536)
+      p3 == a[3] * k + (p2 \div 65536)   p4 == a[4] * k + (p3 \div 65536)
+  IN <<p1 % 65536, p2 % 65536, p3 % 65536, p4 % 65536>>
+L4Int(v) == IF v >= 0 THEN <<v % 65536, v \div 65536, 0, 0>> ELSE L4Neg(<<(-v) % 65536, (-v) \div 65536, 0, 0>>)
+
+EAofL(r, m) ==
+  LET base == IF m.rip = 1 THEN NextL ELSE IF m.b < 0 THEN <<0, 0, 0, 0>> ELSE r[m.b + 1]
+      idx  == IF m.x < 0 THEN <<0, 0, 0, 0>> ELSE L4Scale(r[m.x + 1], m.sc)
+      sum  == L4Add(L4Add(base, idx), L4Int(m.d))
+  IN IF m.a32 = 1 THEN <<sum[1], sum[2], 0, 0>> ELSE sum
+EAof(r, m) == FromLimbs(EAofL(r, m), 64)
+(* offset of an n-byte access at address ea (limbs) inside the scratch bytes, -1 if not wholly inside *)
+OffOf(ea, n) == LET o == L4Sub(ea, DataL) IN
+                IF o[2] = 0 /\ o[3] = 0 /\ o[4] = 0 /\ o[1] <= MEMN - n THEN o[1] ELSE -1
 RdMem(mem, ea, n) == LET o == OffOf(ea, n) IN BytesToBV(SubSeq(mem, o + 1, o + n))
 WrMem(mem, ea, v) == LET n == Len(v) \div 8  o == OffOf(ea, n)  bs == BVToBytes(v) IN
                      [k \in 1..Len(mem) |-> IF k - 1 >= o /\ k - 1 < o + n THEN bs[k - o] ELSE mem[k]]
 
 RdOp(s, o, sz) ==
   CASE o.k = "r" -> RdReg(s.r, o.n, o.h, sz)
-    [] o.k = "m" -> RdMem(s.mem, EAof(s.r, o), sz \div 8)
+    [] o.k = "m" -> RdMem(s.mem, EAofL(s.r, o), sz \div 8)
     [] o.k = "i" -> IntBV(o.v, sz)                       \* immediates are sign-extended to the operand size
     [] o.k = "cl" -> RdReg(s.r, 1, 0, sz)
 (* the accesses of a form stay inside the scratch bytes (generator guard; also checked by X86Trace) *)
-OpInside(s, o, sz) == o.k # "m" \/ OffOf(EAof(s.r, o), sz \div 8) >= 0
+OpInside(s, o, sz) == o.k # "m" \/ OffOf(EAofL(s.r, o), sz \div 8) >= 0
 
 (* post-state under construction; addresses are always computed from the PRE-state s *)
 P0(s, len) == [r |-> s.r, fl |-> s.fl, mem |-> s.mem, rip |-> len, undef |-> {}, ur |-> {}, fault |-> ""]
 WrOp(P, s, o, sz, v) ==
   CASE o.k = "r" -> [P EXCEPT !.r = WrReg(P.r, o.n, o.h, sz, v)]
-    [] o.k = "m" -> [P EXCEPT !.mem = WrMem(P.mem, EAof(s.r, o), v)]
+    [] o.k = "m" -> [P EXCEPT !.mem = WrMem(P.mem, EAofL(s.r, o), v)]
 SetFl(P, F, names) == [P EXCEPT !.fl = [n \in DOMAIN P.fl |-> IF n \in names THEN F[n] ELSE P.fl[n]]]
 Undef(P, names) == [P EXCEPT !.undef = @ \cup names]
 
@@ -166,11 +183,11 @@ Moves(s, f, len) ==
     [] f.mn = "bswap" -> LET a == RdOp(s, f.o1, sz) n == sz \div 8 IN
          WrOp(P, s, f.o1, sz, [i \in 1..sz |-> a[8 * (n - 1 - ((i - 1) \div 8)) + ((i - 1) % 8) + 1]])
     [] f.mn = "push" ->
-         LET v == RdOp(s, f.o1, sz)  sp == Sub(RegBV(s.r, 4), NBits(sz \div 8, 64)) IN
-         [P EXCEPT !.r = WrReg(P.r, 4, 0, 64, sp), !.mem = WrMem(P.mem, sp, v)]
+         LET v == RdOp(s, f.o1, sz)  sp == L4Sub(s.r[5], L4Int(sz \div 8)) IN
+         [P EXCEPT !.r = [P.r EXCEPT ![5] = sp], !.mem = WrMem(P.mem, sp, v)]
     [] f.mn = "pop" ->
-         LET sp == RegBV(s.r, 4)  v == RdMem(s.mem, sp, sz \div 8)
-             P1 == [P EXCEPT !.r = WrReg(P.r, 4, 0, 64, Add(sp, NBits(sz \div 8, 64)))] IN
+         LET sp == s.r[5]  v == RdMem(s.mem, sp, sz \div 8)
+             P1 == [P EXCEPT !.r = [P.r EXCEPT ![5] = L4Add(sp, L4Int(sz \div 8))]] IN
          WrOp(P1, s, f.o1, sz, v)                                   \* rsp is incremented before the destination is written
 
 Count(s, f) == LET raw == RdOp(s, f.o2, 8) IN BNat(Trunc(raw, IF f.sz = 64 THEN 6 ELSE 5))
@@ -208,7 +225,20 @@ DShift(s, f, len) ==      \* shld / shrd  o1, o2, count (o3: imm8 or cl)
      ELSE IF c > sz THEN [P EXCEPT !.fault = "UNDEF"]       \* 16-bit operand, count > 16: result and flags undefined
      ELSE WrOp(Undef(SetFl(P, F, FlagNames), {"af"} \cup (IF c # 1 THEN {"of"} ELSE {})), s, f.o1, sz, res)
 
-MulDiv(s, f, len) ==
+(* widening multiply on bytes with TLC's integers (schoolbook, column sums < 2^20); X86MC.cfg checks it against
+   BitVec!Mul2U / Mul2S.  The signed product is the unsigned one corrected for the operands' signs. *)
+RECURSIVE ColSum(_, _, _, _, _)
+ColSum(A, Bv, k, i, acc) == IF i > Len(A) \/ i > k THEN acc
+                            ELSE ColSum(A, Bv, k, i + 1, IF k - i + 1 <= Len(Bv) THEN acc + A[i] * Bv[k - i + 1] ELSE acc)
+RECURSIVE Carry(_, _, _, _, _)
+Carry(A, Bv, k, c, out) == IF k > 2 * Len(A) THEN out
+                           ELSE LET t == ColSum(A, Bv, k, 1, 0) + c IN Carry(A, Bv, k + 1, t \div 256, Append(out, t % 256))
+FMul2U(a, b) == BytesToBV(Carry(BVToBytes(a), BVToBytes(b), 1, 0, <<>>))
+FMul2S(a, b) == LET w == Len(a)  p == FMul2U(a, b)
+                    p1 == IF Msb(a) = 1 THEN Sub(p, Zero(w) \o b) ELSE p
+                IN IF Msb(b) = 1 THEN Sub(p1, Zero(w) \o a) ELSE p1
+
+MulDiv(s, f, len, wit) ==
   LET sz == f.sz  P == P0(s, len)
       lo(p) == Trunc(p, sz)  hi(p) == Slice(p, sz, sz)
       (* one-operand forms: accumulator pair; 8-bit: AX, otherwise rDX:rAX *)
@@ -217,28 +247,41 @@ MulDiv(s, f, len) ==
       MF(p, ov) == Undef(SetFl(P, [cf |-> B(ov), of |-> B(ov), pf |-> 0, af |-> 0, zf |-> 0, sf |-> 0], {"cf", "of"}),
                          {"sf", "zf", "af", "pf"})
       DE == [P EXCEPT !.fault = "DE"]
-  IN CASE f.mn = "mul" -> LET p == Mul2U(RdReg(s.r, 0, 0, sz), RdOp(s, f.o1, sz)) IN
+  IN CASE f.mn = "mul" -> LET p == FMul2U(RdReg(s.r, 0, 0, sz), RdOp(s, f.o1, sz)) IN
                           WrPair(MF(p, ~IsZero(hi(p))), lo(p), hi(p))
        [] f.mn = "imul" /\ f.o2.k = "n" ->
-            LET p == Mul2S(RdReg(s.r, 0, 0, sz), RdOp(s, f.o1, sz)) IN
+            LET p == FMul2S(RdReg(s.r, 0, 0, sz), RdOp(s, f.o1, sz)) IN
             WrPair(MF(p, p # Sext(lo(p), 2 * sz)), lo(p), hi(p))
        [] f.mn = "imul" ->
             LET a == IF f.o3.k = "n" THEN RdOp(s, f.o1, sz) ELSE RdOp(s, f.o2, sz)
                 b == IF f.o3.k = "n" THEN RdOp(s, f.o2, sz) ELSE RdOp(s, f.o3, sz)
-                p == Mul2S(a, b) IN
+                p == FMul2S(a, b) IN
             WrOp(MF(p, p # Sext(lo(p), 2 * sz)), s, f.o1, sz, lo(p))
        [] f.mn \in {"div", "idiv"} ->
             LET d == RdOp(s, f.o1, sz)
                 n == IF sz = 8 THEN RdReg(s.r, 0, 0, 16) ELSE RdReg(s.r, 0, 0, sz) \o RdReg(s.r, 2, 0, sz)
                 U == Undef(P, FlagNames)
-            IN IF IsZero(d) THEN DE
-               ELSE IF f.mn = "div"
-               THEN LET qr == UDivRem(n, Zext(d, 2 * sz))  q == qr[1]  r == Trunc(qr[2], 2 * sz) IN
-                    IF ~IsZero(hi(q)) THEN DE ELSE WrPair(U, lo(q), lo(r))
-               ELSE LET dd == Sext(d, 2 * sz)  q == SDiv(n, dd)  r == SRem(n, dd) IN
-                    \* the quotient must fit the signed range of the operand size
-                    IF q # Sext(lo(q), 2 * sz) \/ (Msb(n) = Msb(dd) /\ Msb(q) = 1) THEN DE
-                    ELSE WrPair(U, lo(q), lo(r))
+                signed == f.mn = "idiv"
+                \* does the quotient fit?  decided without dividing:
+                \*   unsigned: iff the high half of the dividend is below the divisor
+                \*   signed:   iff |n| < 2^(sz-1) |d|  (quotient >= 0)   or   |n| < (2^(sz-1) + 1) |d|  (quotient <= 0)
+                ad == Zext(Abs(d), 2 * sz)
+                lim == IF Msb(n) = Msb(d) THEN Shl(ad, sz - 1) ELSE Add(Shl(ad, sz - 1), ad)
+                fits == IF signed THEN Ult(Abs(n), lim) ELSE Ult(hi(n), d)
+                \* quotient and remainder.  For 32/64-bit operands the bit-level long division is too slow under
+                \* TLC: division is specified as a RELATION and the processor's result (wit) is checked against it
+                \*   n = q * d + r,  |r| < |d|,  r = 0 or sign(r) = sign(n)      (unique once the quotient fits)
+                qr == IF wit = <<>> \/ sz <= 16
+                      THEN (IF signed THEN <<lo(SDiv(n, Sext(d, 2 * sz))), lo(SRem(n, Sext(d, 2 * sz)))>>
+                            ELSE LET u == UDivRem(n, Zext(d, 2 * sz)) IN <<lo(u[1]), Trunc(u[2], sz)>>)
+                      ELSE LET q == Trunc(wit[1], sz)  r == Trunc(wit[2], sz) IN
+                           IF signed
+                           THEN (IF Add(FMul2S(q, d), Sext(r, 2 * sz)) = n /\ Ult(Abs(r), Abs(d))
+                                    /\ (IsZero(r) \/ Msb(r) = Msb(n)) THEN <<q, r>> ELSE <<>>)
+                           ELSE (IF Add(FMul2U(q, d), Zext(r, 2 * sz)) = n /\ Ult(r, d) THEN <<q, r>> ELSE <<>>)
+            IN IF IsZero(d) \/ ~fits THEN DE
+               ELSE IF qr = <<>> THEN [P EXCEPT !.fault = "WITNESS"]      \* the recorded quotient / remainder are wrong
+               ELSE WrPair(U, qr[1], qr[2])
 
 Bits(s, f, len) ==
   LET sz == f.sz  P == P0(s, len) IN
@@ -287,13 +330,14 @@ FlagOps(s, f, len) ==
     [] f.mn = "sahf" -> LET a == RdReg(s.r, 4, 1, 8) IN
                         [P EXCEPT !.fl = [fl EXCEPT !.cf = a[1], !.pf = a[3], !.af = a[5], !.zf = a[7], !.sf = a[8]]]
 
-SpecStep(s, f, len) ==
+(* wit: <<>> or <<rax, rdx>> of a recorded execution, used only as the witness of 32/64-bit divisions *)
+SpecStep(s, f, len, wit) ==
   CASE f.mn \in ALU2 -> Alu2(s, f, len)
     [] f.mn \in {"inc", "dec", "neg", "not"} -> Unary(s, f, len)
     [] f.mn \in {"mov", "movzx", "movsx", "movsxd", "lea", "xchg", "xadd", "cmpxchg", "bswap", "push", "pop"} -> Moves(s, f, len)
     [] f.mn \in SHIFTS -> Shift(s, f, len)
     [] f.mn \in {"shld", "shrd"} -> DShift(s, f, len)
-    [] f.mn \in {"mul", "imul", "div", "idiv"} -> MulDiv(s, f, len)
+    [] f.mn \in {"mul", "imul", "div", "idiv"} -> MulDiv(s, f, len, wit)
     [] f.mn \in {"bt", "bts", "btr", "btc", "bsf", "bsr"} -> Bits(s, f, len)
     [] f.mn \in {"cbw", "cwde", "cdqe", "cwd", "cdq", "cqo"} -> Conv(s, f, len)
     [] f.mn \in {"setcc", "cmovcc", "jcc"} -> CondOps(s, f, len)
@@ -307,8 +351,8 @@ Mnemonics == ALU2 \cup SHIFTS \cup
 Inside(s, f) ==
   /\ OpInside(s, f.o1, IF f.mn = "setcc" THEN 8 ELSE f.sz)
   /\ (f.mn = "lea" \/ OpInside(s, f.o2, IF f.mn \in {"movzx", "movsx", "movsxd"} THEN f.ssz ELSE f.sz))
-  /\ (f.mn = "push" => OffOf(Sub(RegBV(s.r, 4), NBits(f.sz \div 8, 64)), f.sz \div 8) >= 0)
-  /\ (f.mn = "pop" => OffOf(RegBV(s.r, 4), f.sz \div 8) >= 0)
+  /\ (f.mn = "push" => OffOf(L4Sub(s.r[5], L4Int(f.sz \div 8)), f.sz \div 8) >= 0)
+  /\ (f.mn = "pop" => OffOf(s.r[5], f.sz \div 8) >= 0)
 
 -----------------------------------------------------------------------------
 (* Intel-syntax text of a form (input of llvm-mc) *)
